@@ -201,7 +201,7 @@ func (b *Buffer) ServeHTTP(w http.ResponseWriter, req *http.Request) {
 		}
 
 		var reader multibuf.MultiReader
-		if bw.expectBody(outReq) {
+		if bw.wrote && bw.expectBody(outReq) {
 			rdr, err := writer.Reader()
 			if err != nil {
 				b.log.Error("vulcand/oxy/buffer: failed to read response, err: %v", err)
@@ -269,6 +269,7 @@ type bufferWriter struct {
 	buffer         multibuf.WriterOnce
 	responseWriter http.ResponseWriter
 	hijacked       bool
+	wrote          bool
 	writeError     error
 	log            utils.Logger
 }
@@ -304,6 +305,7 @@ func (b *bufferWriter) Header() http.Header {
 }
 
 func (b *bufferWriter) Write(buf []byte) (int, error) {
+	b.wrote = true
 	length, err := b.buffer.Write(buf)
 	if err != nil {
 		// Since go1.11 (https://github.com/golang/go/commit/8f38f28222abccc505b9a1992deecfe3e2cb85de)
